@@ -358,6 +358,9 @@ def lookup_shape(run):
         src = strip_comments(run.src("src/%sregistry.c" % kind))
         ref = (REF_REGISTRY + REF_CALLS[kind]).replace("R_", r + "_")
         kw = shape_kw([r, "snoopy_genericregistry"])
+        statics = re.findall(r"^static\b[\w \t\*]*?\b(\w+)\s*\([^;{}]*\)\s*\{", src, re.M)
+        kw["inline_names"] = [r + "_callById"] + statics          # callByName may hand over to callById / to a file-local helper
+        kw["exists_of_id"] = [(r + "_doesIdExist", r + "_getIdFromName")]
         for fn in ENTRY_FUNCS:
             ok, why = same_shape(src, "%s_%s" % (r, fn), ref, **kw)
             if not ok:
@@ -382,7 +385,10 @@ def entry_points(run):
         if kind == "output":
             allowed.add(r + "_dispatch")
         found = re.findall(r"^[A-Za-z_][\w \t\*]*?\b(\w+)\s*\([^;{}]*\)\s*\{", src, re.M)
+        statics = set(re.findall(r"^static\b[\w \t\*]*?\b(\w+)\s*\([^;{}]*\)\s*\{", src, re.M))
         for fn in found:
+            if fn in statics:
+                continue          # file-local helper: reachable only through the entry points, whose shapes are compared with it inlined
             if fn not in allowed:
                 probs.append("%s defines a function that is not a modelled entry point: %s" % (path, fn))
         for fn in allowed:
@@ -405,14 +411,33 @@ def entry_points(run):
         m = re.search(r"\bsnoopy_(?:datasource|filter|output)registry_(?:ptrs|names)\b", t)
         if m:
             probs.append("%s refers to %s outside its registry file" % (os.path.relpath(f, run.tree), m.group(0)))
+    # ids are positions in a configuration-dependent array: the registry headers publish no numeric id
+    for _, _, kind in KINDS:
+        hp = "src/%sregistry.h" % kind
+        try:
+            ht = strip_comments(run.src(hp))
+        except OSError:
+            continue
+        for m in re.finditer(r"^[ \t]*#[ \t]*define[ \t]+(\w+)[ \t]+\(?\s*-?\d+", ht, re.M):
+            probs.append("%s publishes a numeric constant (%s): a registry id is only meaningful in one build configuration" % (hp, m.group(1)))
     # who uses the registries' API: (file, function) pairs outside the three registry files
     callers = []
     for f in sorted(glob.glob(os.path.join(run.tree, "src", "**", "*.c"), recursive=True)):
         if f in own:
             continue
         t = strip_comments(open(f, encoding="utf-8", errors="replace").read())
-        for fn in sorted(set(re.findall(r"\bsnoopy_(?:datasource|filter|output)registry_[A-Za-z]+\b", t))):
+        used = sorted(set(re.findall(r"\bsnoopy_(?:datasource|filter|output)registry_[A-Za-z]+\b", t)))
+        for fn in used:
             callers.append((os.path.relpath(f, run.tree), fn))
+        # the looked-up name must not live in storage shared between calls / threads: no static local in a function that asks a registry
+        if used:
+            for m in re.finditer(r"^[A-Za-z_][\w \t\*]*?\b(\w+)\s*\([^;{}]*\)\s*\{", t, re.M):
+                body = func_body(t[m.start():], m.group(1)) or ""
+                if re.search(r"\bsnoopy_(?:datasource|filter|output)registry_[A-Za-z]+\s*\(", body):
+                    ms = re.search(r"\bstatic\b[^;=]*[;=]", body)
+                    if ms:
+                        probs.append("%s: %s asks a registry and keeps state in static storage (%s): a name looked up there is shared between calls and threads"
+                                     % (os.path.relpath(f, run.tree), m.group(1), " ".join(ms.group(0).split())[:80]))
     return not probs, dispatch_ok, probs, callers
 
 
@@ -548,7 +573,7 @@ def tr_registry(run):
         r = "snoopy_%sregistry" % kind
         arrays = {
             "names": (r"\bchar\s*\*\s*%s_names\s*\[\s*\]\s*=\s*\{" % r, "str"),
-            "ptrs": (r"\bint\s*\(\s*\*\s*%s_ptrs\s*\[\s*\]\s*\)\s*\([^)]*\)\s*=\s*\{" % r, "id"),
+            "ptrs": (r"(?:\bint\s*\(\s*\*\s*%s_ptrs\s*\[\s*\]\s*\)\s*\([^)]*\)|\b\w+_t\s+%s_ptrs\s*\[\s*\])\s*=\s*\{" % (r, r), "id"),
         }
         res, defined_here = read_arrays(src, arrays)
         lex_ok = True
